@@ -17,6 +17,7 @@ RULE = (
 ASSUMPTIONS = [
     "solver/process twins are judged only where the activity model is numerically meaningful: cases with an activity coefficient outside 1e-8..1e8 at the feed or permeate state (shipped UNIQUAC sets reach 1e200 outside their fitted range) or a flux above permeance x feed partial pressure are counted and skipped",
     "process twins whose trajectory runs away (temperature outside 150..600 K or feed mass above twice the initial amount) are counted and skipped: they amplify rounding without bound",
+    "twins are judged only where the permeate-composition map is locally contractive (L < 0.9, as in C02): elsewhere the iteration ends at a last-bit-dependent iterate",
     "iterated permeate modes are run with precision 1e-10..1e-8 and compared at rounding level plus 4 x precision x measured flux sensitivity (the two fixed-point iterations may stop one step apart)",
     "UNIQUAC mismatches are attributed to KF-UNIQUAC-GAMMA2 only by signature: thermodynamics - both evaluations equal the known-bad formula (1e-11) and not the correct one; solver/process - the mismatch vanishes when the twin's activity coefficients are taken from the original mixture at the mirrored composition (mirror shim), which is used for classification only",
 ]
@@ -181,6 +182,10 @@ def solver_case(rep, spec, index):
         rep.case(case, nontrivial=False, cls=f"solver|{fc.model}|{fc.mode}")
         rep.count("solver_numerical_breakdown_skipped")
         return
+    if fc.mode not in ("V", "P0") and 0 <= r["y"] <= 1 and not (c02.lipschitz(fc, r["y"], fc.p1.value, fc.p2.value, fc.precision) < 0.9):
+        rep.case(case, nontrivial=False, cls=f"solver|{fc.model}|{fc.mode}")
+        rep.count("solver_non_contractive_map_skipped")
+        return
     rep.case(case, cls=f"solver|{fc.model}|{fc.mode}" + ("|membrane" if fc.from_membrane else ""))
     problems = solver_mismatch(fc, r, basis)
     if problems and fc.model == "UNIQUAC":
@@ -320,6 +325,10 @@ def process_case(rep, spec, index):
     if proc.runaway(model, sc.m0):
         rep.case(case, nontrivial=False, cls="process|" + sc.cls())
         rep.count("process_runaway_trajectory_skipped")
+        return
+    if proc.non_contractive(sc, model):
+        rep.case(case, nontrivial=False, cls="process|" + sc.cls())
+        rep.count("process_non_contractive_map_skipped")
         return
     for k in range(len(model.time)):
         pf = get_partial_pressures(model.feed_temperature[k], sc.mix, model.feed_compositions[k], sc.model)
